@@ -151,6 +151,44 @@ def wl_bloom(ctx, rng, case):
             for kx, _ in hist:
                 mdl.add(refimpl.fnv_chain(gen.to_bytes(kx), k))
             ctx.check(bytes(mdl.cells) == data[:-20], "bit array differs from the independent bit model")
+        # ---- files written by filters that came out of SET OPERATIONS (also chained: an operand whose element count is an estimate,
+        # possibly 0 with bits set): the cell array is the AND / OR of the independent bit models, the footer describes the geometry, and
+        # the C reader answers from the file like the library does
+        if not counting and hist and rng.random() < 0.5:
+            g, mg = cls(est, rate), refimpl.BloomModel(m, k)
+            for kx in [rng.choice(keys) for _ in range(rng.randint(1, 12))]:
+                g.add(kx)
+                mg.add(refimpl.fnv_chain(gen.to_bytes(kx), k))
+            AND = bytes(a & b for a, b in zip(mdl.cells, mg.cells))
+            OR = bytes(a | b for a, b in zip(mdl.cells, mg.cells))
+            inter = f.intersection(g)
+            u0 = inter.union(cls(est, rate)) if inter is not None else None  # the same bits, element count re-estimated (0 when few bits are set)
+            derived = [("f.intersection(g)", inter, AND), ("g.union(f)", g.union(f), OR)]
+            if u0 is not None and u0.elements_added >= 0:
+                derived += [("(f&g | empty)", u0, AND), ("(f&g | empty).intersection(f)", u0.intersection(f), AND), ("g.intersection(f&g | empty)", g.intersection(u0), AND),
+                            ("(f&g | empty).union(g)", u0.union(g), bytes(mg.cells))]
+                if u0.elements_added == 0 and any(AND):
+                    ctx.count("derived_operands_with_zero_count_and_bits_set")
+            for name, r, want_body in derived:
+                if r is None:
+                    ctx.fail(f"{name} of two filters of the same geometry returned None")
+                if r.elements_added < 0:
+                    continue  # completely set array: the documented sentinel, not exportable
+                rd = bytes(r)
+                ctx.counters["disagreements_checked"] += 1
+                if rd[:-20] != want_body:
+                    ctx.fail(f"the file exported by {name} does not hold the cells the documented rule selects (AND / OR of the operands' cells)",
+                             differing_bytes=[(i, x, y) for i, (x, y) in enumerate(zip(rd[:-20], want_body)) if x != y][:8])
+                rs = refimpl.parse_bloom(rd)
+                ctx.check((rs["est"], rs["m"]) == (est, m) and rs["fpr32"] == refimpl.f32(rate), f"footer of the file exported by {name} does not describe the geometry")
+                p2 = sc.path("derived")
+                r.export(p2)
+                ans2 = c_ask(ctx, f"bloom_check {p2} " + " ".join(cref.hexkey(x) for x in probe)).split()
+                ctx.check(ans2[0] == "OK", f"C reader could not read the file exported by {name}")
+                for key, a in zip(probe, ans2[7:]):
+                    if int(a) != int(r.check(key)):
+                        ctx.fail(f"C reference reader answers differently from the library for the file exported by {name}", key=key, c=int(a), library=int(r.check(key)))
+                ctx.count("programs.derived_files_checked")
         # ---- hex form = cells, then the footer big-endian
         hx = f.export_hex()
         want_hex = data[:-20].hex() + refimpl.BLOOM_FOOTER_BE.pack(st["est"], st["added"], st["fpr32"]).hex()
